@@ -297,29 +297,45 @@ func c16EqRound(cl *c16Lis, c c16EqCase, round int, out *c16EqOut) (key, msg str
 	return "", ""
 }
 
+type c16EqDone struct {
+	c        c16EqCase
+	out      c16EqOut
+	key, msg string
+	classes  map[string]bool
+}
+
+func c16EqEval(c c16EqCase) c16EqDone {
+	d := c16EqDone{c: c}
+	d.key, d.msg, d.classes = c16Timed(c16Stalled, func() (string, string, map[string]bool) {
+		d.out = c16EqRun(c)
+		return d.out.key, d.out.msg, d.out.classes
+	})
+	return d
+}
+
+// c16EqReport records one evaluated batch (test goroutine only).
+func c16EqReport(t vh.Fataler, rec *vh.Rec, d c16EqDone) {
+	var classes []string
+	for k := range d.classes {
+		classes = append(classes, k)
+	}
+	classes = append(classes, fmt.Sprintf("k-%02d+", d.c.K/8*8))
+	rec.Case(d.out.rounds > 0 && d.c.K >= 2, vh.Digest(d.c), d.c, classes...)
+	rec.ClassN("rounds", int64(d.out.rounds))
+	rec.ClassN("dials", int64(d.out.dials))
+	if d.key == "harness" {
+		t.Fatalf("harness problem: %s", d.msg)
+	}
+	if d.key != "" {
+		rec.Violation(t, d.key, d.c, "%s", d.msg)
+	}
+}
+
 func c16EqCheck(t vh.Fataler, rec *vh.Rec, c c16EqCase) {
 	if c.K < 2 || c.K > 64 || c.Others < 0 || c.Others > 8 || c.Rounds < 1 {
 		t.Fatalf("harness problem: malformed equalaccepts case %+v", c)
 	}
-	var out c16EqOut
-	key, msg, extra := c16Timed(c16Stalled, func() (string, string, map[string]bool) {
-		out = c16EqRun(c)
-		return out.key, out.msg, out.classes
-	})
-	var classes []string
-	for k := range extra {
-		classes = append(classes, k)
-	}
-	classes = append(classes, fmt.Sprintf("k-%02d+", c.K/8*8))
-	rec.Case(out.rounds > 0 && c.K >= 2, vh.Digest(c), c, classes...)
-	rec.ClassN("rounds", int64(out.rounds))
-	rec.ClassN("dials", int64(out.dials))
-	if key == "harness" {
-		t.Fatalf("harness problem: %s", msg)
-	}
-	if key != "" {
-		rec.Violation(t, key, c, "%s", msg)
-	}
+	c16EqReport(t, rec, c16EqEval(c))
 }
 
 // c16EqParams enumerates the (small) parameter space: batch i of the whole run.
@@ -355,9 +371,42 @@ func TestVerif_C16_equalaccepts(t *testing.T) {
 		}
 		return
 	}
+	// several lanes of batches side by side (different secrets, one Listener): rounds are cheap but
+	// partly serial, lanes keep the cores busy; results are reported from the test goroutine
 	shard, shards := vh.Shard()
 	batches := vh.Pick(14, 60)
-	for b := 0; b < batches; b++ {
-		c16EqCheck(t, rec, c16EqParams(b*shards+shard+int(vh.Seed())))
+	lanes := 2
+	var next, stop int32
+	done := make(chan c16EqDone, batches)
+	var wg sync.WaitGroup
+	for l := 0; l < lanes; l++ {
+		wg.Add(1)
+		go func() {
+			defer wg.Done()
+			for atomic.LoadInt32(&stop) == 0 {
+				b := int(atomic.AddInt32(&next, 1)) - 1
+				if b >= batches {
+					return
+				}
+				d := c16EqEval(c16EqParams(b*shards + shard + int(vh.Seed())))
+				if d.key != "" {
+					atomic.StoreInt32(&stop, 1)
+				}
+				done <- d
+			}
+		}()
+	}
+	wg.Wait()
+	close(done)
+	var bad []c16EqDone
+	for d := range done {
+		if d.key != "" {
+			bad = append(bad, d)
+			continue
+		}
+		c16EqReport(t, rec, d)
+	}
+	for _, d := range bad {
+		c16EqReport(t, rec, d)
 	}
 }
